@@ -107,11 +107,18 @@ def parse_flow(chk, facts):
                 ok = False
                 for x in sch:
                     dsx = panics._def_sites(f).get(x[1][0], [])
-                    ok = bool(dsx) and not any(d[0] == "st" and d[2][2][0] == "agg" and d[2][2][1][0] == "adt" and d[2][2][1][2] == "None" for d in dsx)
+                    # follow plain copies / moves back to the variable that is really assigned
+                    for _ in range(6):
+                        if len(dsx) == 1 and dsx[0][0] == "st" and dsx[0][2][2][0] == "use" and dsx[0][2][2][1][0] in ("c", "m") and len(dsx[0][2][2][1][1]) == 1:
+                            dsx = panics._def_sites(f).get(dsx[0][2][2][1][1][0], [])
+                        else:
+                            break
+                    # unconditional: the schema itself (one definition), never the validate_request-gated option nor a constant None
+                    ok = len(dsx) == 1 and not any(d[0] == "st" and d[2][2][0] == "agg" and d[2][2][1][0] == "adt" and d[2][2][1][2] == "None" for d in dsx)
                 recv_ok = ("self." + what) in L.operand_labels(a[0])
                 ok = ok and recv_ok
             n += 1
-            chk.ob(rule, "%s:%s-schema" % (nm, what), ok, "%s parsing receives self.%s and the (optional) schema: %s" % (what, what, ok),
+            chk.ob(rule, "%s:%s-schema" % (nm, what), ok, "%s parsing receives self.%s and the schema itself, independently of validate_request (schema-directed parsing and the schema's action entities do not depend on request validation): %s" % (what, what, ok),
                    where=f.where(cs[0][1][1].get("l") if cs else None), fn=f.name, key="%s:%s:%s" % (rule, nm, what))
         # context parsing is told the action
         cs = protocol.calls_matching(f, "ffi::utils::Context::parse")
